@@ -25,6 +25,10 @@ WARN := -w
 UBSAN_CHECKS := shift,signed-integer-overflow,integer-divide-by-zero,float-divide-by-zero,float-cast-overflow
 CC_asan     := clang
 CFLAGS_asan := -O1 -g -fno-omit-frame-pointer -fsanitize=address,$(UBSAN_CHECKS) -fno-sanitize-recover=all
+# asanx: ASan only (no UBSan): for harnesses whose property is about data values, so that
+# benign-on-this-target shift UB (hamm.h `-1 << 4`, decided under C01) does not mask exploration
+CC_asanx     := clang
+CFLAGS_asanx := -O1 -g -fno-omit-frame-pointer -fsanitize=address
 CC_fast     := gcc
 CFLAGS_fast := -O2 -g
 CC_tsan     := clang
@@ -34,7 +38,7 @@ CFLAGS_plain := -O1 -g
 
 LDLIBS := -lpthread -lm -lpng -lz
 
-VARIANTS := asan fast tsan plain
+VARIANTS := asan asanx fast tsan plain
 
 .SECONDEXPANSION:
 .SECONDARY:
